@@ -176,6 +176,7 @@ std::unique_ptr<VM> make_vm(const value& st)
         vm->mon->mon_slices = mo["slices"].boolean(false);
         vm->mon->trace_max = (size_t)mo["trace"].i64(0);
         vm->mon->budget_override = (size_t)mo["budget"].i64(0);
+        vm->mon->tick_ns = mo["tick_ns"].i64(0);
     }
     return vm;
 }
